@@ -2,13 +2,18 @@
   The instances of the scalar-text parameter `sh` used by the executable families:
     * `showScalar`   = `fmt.Sprintf("%v", x)` (the text the secret scan hands to the detectors): integers in decimal,
                        booleans `true`/`false`, floats through the table obtained by executing `fmt` on the sample values
-                       (Generated/Search.lean) — the generators draw floats only from that table;
-    * `searchScalar` = search.go `scalarText` (fix search/05), the text a scalar is SEARCHED as: `%v`, except that a
-                       float64 with 1e6 ≤ |x| < 1e15 is written positionally (`1000000`, `1234567.89`), as PostgreSQL
-                       prints numeric / float8 / JSON numbers of that size (`%v` has `1e+06`).
+                       (Generated/Search.lean) — the generators of the scan families draw floats only from that table;
+    * `searchScalar` = search.go `scalarText` (fix search/06), the text a scalar is SEARCHED as: `%v`, except that floats
+                       go through `floatText(f, bitSize)`: NaN / Infinity / -Infinity, a float64 as
+                       `strconv.FormatFloat(f, 'f', -1, 64)`, a float32 as `strconv.FormatFloat(f, 'g', -1, 32)`.
+  Library call `strconv.FormatFloat(f, fmt, -1, bitSize)` on a finite `f` = its documented behaviour ("the minimal number
+  of digits necessary to represent the value uniquely", laid out as `%f` / `%g` with precision 6 for the choice): the
+  definition `formatFloat` below, over `Spec.SearchFloat.shortest` — exact arithmetic on the bit pattern, no table.  The
+  family `floattext` compares it with the real code on generated floats.
   Core Lean only.
 -/
 import PgVerif.Spec.Search
+import PgVerif.Spec.SearchFloat
 import PgVerif.Generated.Search
 namespace PgVerif.Model.SearchShow
 open PgVerif
@@ -26,12 +31,27 @@ def showScalar : GoVal → Bytes
   | .f32 b => tableText Generated.Search.f32Text b
   | _ => []
 
+open Spec.SearchFloat in
+/-- strconv.FormatFloat(f, 'f' | 'g', -1, bitSize) for a finite `f` given decoded: sign, then `0` for a zero, else the
+shortest digits that read back, in the layout of the format -/
+def formatFloat (D : Decoded) (layout : Nat → Int → Bytes) : Bytes :=
+  (if D.neg then [45] else []) ++ (if D.m == 0 then [48] else layout (shortest D.fin).1 (shortest D.fin).2)
+
+open Spec.SearchFloat in
+/-- search.go: floatText(f, bitSize).  `bits` is the pattern of the float64 (bitSize 64) or of the float32 the
+float64 argument was converted from (bitSize 32; the conversion and FormatFloat's conversion back are exact). -/
+def floatText (bits : Nat) (bitSize : Nat) : Bytes :=
+  let D := if bitSize == 32 then decode 23 8 bits else decode 52 11 bits
+  if D.special && D.frac != 0 then strBytes "NaN"                     -- case math.IsNaN(f)
+  else if D.special && !D.neg then strBytes "Infinity"                -- case math.IsInf(f, 1)
+  else if D.special && D.neg then strBytes "-Infinity"                -- case math.IsInf(f, -1)
+  else if bitSize == 32 then formatFloat D gForm                      -- strconv.FormatFloat(f, 'g', -1, 32)
+  else formatFloat D positional                                       -- strconv.FormatFloat(f, 'f', -1, 64)
+
 /-- search.go: scalarText -/
 def searchScalar : GoVal → Bytes
-  | .f64 b =>
-    match Generated.Search.f64SearchText.find? (·.1 == b) with
-    | some (_, s) => strBytes s
-    | none => showScalar (.f64 b)
-  | v => showScalar v
+  | .f64 b => floatText b 64                                          -- case float64
+  | .f32 b => floatText b 32                                          -- case float32
+  | v => showScalar v                                                 -- fmt.Sprintf("%v", v)
 
 end PgVerif.Model.SearchShow
